@@ -244,6 +244,32 @@ func c20Shard(c c05Case, viol func(sig, detail string), r *core.Run) {
 			}
 		}
 	}
+	// resolving one segment (present or absent) on a cold node requests the
+	// shards on that name's hash path, in root-to-leaf order, and nothing else
+	probes := append([]string{"nope", "absent-name", ""}, c.Names...)
+	if len(probes) > 8 {
+		probes = probes[:8]
+	}
+	for _, q := range probes {
+		rn, err := loadRoot(ls, root)
+		if err != nil {
+			return
+		}
+		n, err := openVia("unixfs", ls, rn)
+		if err != nil {
+			return
+		}
+		path, _ := hm.HashPath(q)
+		s.ResetLogs()
+		n.LookupByString(q)
+		got := store.FirstReads(s.Reads())
+		if r != nil {
+			r.Transitions.Add(1)
+		}
+		if !sameOrder(got, store.FirstReads(path)) {
+			viol("load-order shard lookup", fmt.Sprintf("%s: LookupByString(%q) on a cold node requested %s, the shards on its hash path are %s", c, q, shortList(got), shortList(path)))
+		}
+	}
 }
 
 // c20HandShard: hand-written shard DAGs (child shards of another fanout than
